@@ -306,6 +306,38 @@ def match_known(R, o, adb, why):
     return None
 
 
+# ---- replay: one program of a replay file through the current pavexc ----------------------------------
+
+def replay_stage(R):
+    import e2e
+    rp = json.load(open(R.replay))["replay"]
+    if "app_module_source" not in rp:
+        raise RuntimeError("replay file names no program (broken proof / correspondence): re-run the check itself")
+    name = rp.get("program", "r0")
+    e2e.ensure_toolchain(R)
+    ok, out = e2e.build_pavexc(R)
+    if not ok:
+        raise RuntimeError("pavexc does not build: " + out[-1500:])
+    root = os.path.join(e2e_stage.SCRATCH, "replay-%d" % os.getpid())
+    ws = e2e.Workspace(root, {name: rp["app_module_source"]})
+    ws.write()
+    rc, out = ws.emit_blueprints()
+    if rc != 0:
+        raise RuntimeError("replayed application does not compile: " + out[-2000:])
+    r = ws.pavexc(name)
+    o = {"name": name, "klass": "planted:" + rp["rule"] if not rp["rule"].startswith("corpus:") else "corpus", "spec": rp.get("spec"),
+         "corpus": rp["rule"].split(":", 1)[1] if rp["rule"].startswith("corpus:") else None,
+         "meta": {"c08": {"adb": rp["abstract_db"], "expect_kinds": []}} if rp["rule"].startswith("corpus:") else None,
+         "rc": r["rc"], "panicked": r["panicked"], "timed_out": r["timed_out"], "secs": r["secs"], "out": r["out"][-6000:],
+         "files": ws.sdk_files(name), "lib_rs": "", "dot": "", "workspace": root, "src": rp["app_module_source"]}
+    if r["rc"] == 0:
+        cc = ws.cargo_check([name])
+        o["cargo_check"] = {"ok": cc[name][0], "err": cc[name][1]}
+    import shutil
+    shutil.rmtree(root, ignore_errors=True)
+    return {name: o}, {"replay": R.replay, "programs": 1}
+
+
 # ---- the check ------------------------------------------------------------------------------------
 
 def run(R):
@@ -315,7 +347,10 @@ def run(R):
         "toolchain shim: installed nightly (rustdoc JSON format 57) instead of pavexc's pinned nightly",
     ]
     lean_ok, lrep = pxvlib.lean_obligations(R, ["Pxv.Thm.C08"])
-    obs, info = e2e_stage.get_stage(R)
+    if R.replay:
+        obs, info = replay_stage(R)
+    else:
+        obs, info = e2e_stage.get_stage(R)
     R.coverage["e2e_stage"] = info
     cases = []
     for o in obs.values():
